@@ -19,7 +19,7 @@ from mcheck.oracles import types as O
 
 ID = "C14"
 RULE = (
-    "10 trace families (unions of 2..7 members, Optional, TypedDict merges at k=3, same-named dict parameters of two "
+    "12 trace families (unions of 2..7 members, Optional, TypedDict merges at k=3, same-named dict parameters of two "
     "functions, generators with several yield types, methods with subclass receivers, > 5 tuple shapes) x {every "
     "permutation of the rows (<= 5 rows; 6..7 rows: rotations + reversal), every single duplication, every split into "
     "consecutive batches x {1,2} connections} x k in {0,3} x {default rewriter, --disable-type-rewriting}; set-iteration "
@@ -58,6 +58,7 @@ def families():
         "six-tuple-shapes": [(S.mfunc, {"x": t}, int, None) for t in (Tu[int], Tu[int, int], Tu[str], Tu[str, str], Tu[float], Tu[int, int, int], Tu[()])],
         "seven-classes": [(S.mfunc, {"x": t}, NT, None) for t in (int, str, float, bytes, S.Base, S.Other, NT)],
         "same-qualname-two-modules": [(S.mfunc, {"x": int}, int, None), (S2.mfunc, {"x": int}, int, None), (S2.mfunc, {"x": str}, str, None), (S.Base.meth, {"self": S.Base, "x": int}, int, None), (S2.Base.meth, {"self": S2.Base, "x": int}, int, None)],
+        "nested-class-methods": [(S.Outer.Inner.imeth, {"self": S.Outer.Inner, "x": int}, int, None), (S.Outer.Inner.ismeth, {"x": str}, str, None), (S.Outer.Inner.Deep.dmeth, {"self": S.Outer.Inner.Deep, "x": int}, NT, None), (S.Outer.ometh, {"self": S.Outer, "x": float}, float, None)],
         "dict-unions": [(S.mfunc, {"x": D[str, int]}, D[str, int], None), (S.mfunc, {"x": D[str, str]}, D[str, str], None), (S.mfunc, {"x": D[int, int]}, L[int], None), (S.mfunc, {"x": L[int]}, L[str], None), (S.mfunc, {"x": L[typing_any()]}, L[typing_any()], None)],
     }
     return fam
@@ -94,6 +95,11 @@ def histories(n: int) -> List[Tuple[str, List[List[int]], int, Optional[List[int
         out.append(("dup-front", [[i] + idx], 1, None))
         out.append(("dup-other-day", [idx, [i]], 1, [0, 1]))
     out.append(("dup-all", [idx + idx], 1, None))
+    # many copies of one row (more raw rows than the query limit of n+2, fewer distinct ones), early and late
+    out.append(("dup-heavy-same-day", [[0] * (n + 4) + idx], 1, None))
+    out.append(("dup-heavy-newest", [idx, [0] * (n + 4)], 1, [0, 1]))
+    out.append(("dup-heavy-oldest", [[0] * (n + 4), idx], 1, [0, 1]))
+    out.append(("dup-heavy-last-row-newest", [idx, [n - 1] * (n + 4)], 2, [0, 2]))
     # every split of the identity order into consecutive batches, 1 and 2 connections (alternating)
     for mask in range(1, 2 ** (n - 1)):
         batches: List[List[int]] = [[]]
@@ -300,7 +306,7 @@ def explore_family(ctx: Ctx, fname: str) -> Result:
     for k in (0, 3):
         for rewriting in (True, False):
             traces = mk_traces(fam)
-            mcfg.reset(db=db, k=k)
+            mcfg.reset(db=db, k=k, limit=n + 2)   # more than the distinct rows, fewer than the raw rows of dup-heavy histories
             ref = None
             ref_label = None
 
@@ -366,7 +372,7 @@ def explore_family(ctx: Ctx, fname: str) -> Result:
                 seeds = [0, 1, ctx.seed % 997 + 2]
                 for hs in seeds:
                     env = dict(os.environ, PYTHONHASHSEED=str(hs), MCFG_DB=db, MCFG_K=str(k))
-                    argv = [sys.executable, "-W", "ignore", str(VERIF / "mcheck" / "props" / "c14_child.py"), db, str(k), "1" if rewriting else "0"]
+                    argv = [sys.executable, "-W", "ignore", str(VERIF / "mcheck" / "props" / "c14_child.py"), db, str(k), "1" if rewriting else "0", str(n + 2)]
                     r = subprocess.run(argv, capture_output=True, text=True, env=env)
                     res.states += 1
                     case = {"family": fname, "k": k, "rewriting": rewriting, "history": 0, "policy": ["hashseed", hs, 0]}
